@@ -196,6 +196,30 @@ def run(ctx):
             l_ = op_local(s_['rv'][2][0])
             okr = l_ is not None and pwm.term[rc[0]]['d'][0] in pwm.derived_from(l_, through_mutation=False)
     ctx.ob('R06.7', 'RetractResponse carries the removed ids', okr, 'the response lists what retract_tasks returned (not the requested ids)', pwm.loc(rc[0]))
+    # ---- R06.8 the adjustment reaches every task regardless of the order of the submit
+    ctx.rule('R06.8', 'the restored instance id / crash counter is applied to every task of the submit: no order-dependent lookup (binary_search on a vector that was not sorted in the function); the TaskStarted replay refreshes the instance id on every path')
+    hnt = [b_ for b_ in prog.find_bodies(r'^tako::internal::server::client::handle_new_tasks$')]
+    ctx.require(hnt, 'R06.8: handle_new_tasks')
+    hb_ = hnt[0]
+    bs = [bi for p_ in prog.with_closures(hb_.path) for bi in prog.bodies[p_].call_blocks(lambda c: 'binary_search' in c)]
+    srt = [bi for bi in hb_.call_blocks(lambda c: '::sort' in c)]
+    ctx.ob('R06.8', 'handle_new_tasks|no binary search on the unsorted task vector', not bs or (srt and all(x not in hb_.reach_from([0], avoid=srt) for x in hb_.call_blocks(lambda c: 'binary_search' in c))),
+           'tasks are in submit order (not sorted by id): a binary search silently misses tasks of an out-of-order graph submit, which then restart with instance id 0', hb_.loc(bs[0]) if bs else hb_.loc())
+    wr_i = [bi for bi, st, pl, fs in hb_.field_writes() if fs and fs[-1][0] == 'instance_id' and fs[-1][1] == TASK]
+    ctx.ob('R06.8', 'handle_new_tasks|writes instance_id from the adjust map', bool(wr_i), 'handle_new_tasks copies the adjusted instance id into the task', hb_.loc(wr_i[0]) if wr_i else hb_.loc())
+    # TaskStarted replay: every path of the arm (job known) defines the instance id from the event
+    EP_ = HQ + 'event::payload::EventPayload'
+    RTI_ = HQ + 'restore::RestorerTaskInfo'
+    lef_ = prog.body(HQ + 'restore::StateRestorer::load_event_file')
+    defs_i = set(bi for o_, b_, bi, s_ in construct_sites(prog, RTI_) if b_.path == lef_.path and (variants_at(lef_, EP_, bi) or set()) == {'TaskStarted'})
+    defs_i |= set(bi for bi, st, pl, fs in lef_.field_writes() if fs and fs[-1][0] == 'instance_id' and fs[-1][1] == RTI_ and (variants_at(lef_, EP_, bi) or set()) == {'TaskStarted'})
+    writes_state = set(bi for bi, st, pl, fs in lef_.field_writes() if fs and fs[-1][0] == 'state' and fs[-1][1] == RTI_ and (variants_at(lef_, EP_, bi) or set()) == {'TaskStarted'})
+    sites_ = sorted(defs_i | writes_state)
+    ctx.require(sites_, 'R06.8: TaskStarted replay does not record the task')
+    hs_ = loop_headers_containing(lef_, sites_[0])
+    bad_ = [x for x in writes_state if x not in defs_i and not must_pass(lef_, [x], defs_i, exits=hs_[:1] + list(lef_.returns()))[0] and x in lef_.reach_from(hs_[:1] or [0], avoid=defs_i)]
+    ctx.ob('R06.8', 'load_event_file|TaskStarted refreshes instance id on every path', not bad_,
+           'a TaskStarted record always (re)defines the stored instance id (a branch that only updates the state keeps the id of the first start, so the next run reuses an id)', lef_.loc(bad_[0]) if bad_ else lef_.loc(sites_[0]))
     # ---- R06.6 worker side
     rt = prog.body(WSTATE + 'retract_tasks')
     # the pushed/collected ids are those for which remove from prefilled_tasks succeeded
